@@ -469,7 +469,9 @@ impl Driver {
         }
     }
 
-    fn bases(model: &mut Model, m: usize, i: usize, off: u64, out: &mut Vec<(u64, (usize, usize))>) {
+    /// every direct and transitive base sub-object: (offset in the whole object, crate path of its type);
+    /// bases of extern type are leaves
+    fn bases(model: &mut Model, m: usize, i: usize, off: u64, out: &mut Vec<(u64, String)>) {
         let Item::Type(td) = model.prog.mods[m].items[i].clone() else { return };
         let Ok(l) = model.layout(m, i) else { return };
         for (k, f) in td.fields.iter().enumerate() {
@@ -477,9 +479,17 @@ impl Driver {
                 continue;
             }
             let Ty::Named(n) = &f.ty else { continue };
-            let Some(Bind::Item(bm, bi)) = model.bind(m, n) else { continue };
-            out.push((off + l.fields[k].offset, (bm, bi)));
-            Self::bases(model, bm, bi, off + l.fields[k].offset, out);
+            match model.bind(m, n) {
+                Some(Bind::Item(bm, bi)) => {
+                    if !matches!(model.prog.mods[bm].items[bi], Item::Type(_)) {
+                        continue;
+                    }
+                    out.push((off + l.fields[k].offset, format!("crate::{}", model.bind_path(&Bind::Item(bm, bi)))));
+                    Self::bases(model, bm, bi, off + l.fields[k].offset, out);
+                }
+                Some(b @ Bind::Ext(..)) => out.push((off + l.fields[k].offset, format!("crate::{}", model.bind_path(&b)))),
+                _ => {}
+            }
         }
     }
 
@@ -532,13 +542,12 @@ impl Driver {
                         // conversions to bases
                         let mut bs = vec![];
                         Self::bases(&mut model, mi, ii, 0, &mut bs);
-                        let mut count: BTreeMap<(usize, usize), usize> = BTreeMap::new();
+                        let mut count: BTreeMap<String, usize> = BTreeMap::new();
                         for (_, b) in &bs {
-                            *count.entry(*b).or_insert(0) += 1;
+                            *count.entry(b.clone()).or_insert(0) += 1;
                         }
-                        for (off, (bm, bi)) in &bs {
-                            let bpath = format!("crate::{}::{}", prog.mods[*bm].path_str(), prog.mods[*bm].items[*bi].name());
-                            if count[&(*bm, *bi)] == 1 {
+                        for (off, bpath) in &bs {
+                            if count[bpath] == 1 {
                                 d.value_test(
                                     &file,
                                     "asref",
@@ -555,13 +564,12 @@ impl Driver {
                             }
                         }
                         let mut seen = std::collections::BTreeSet::new();
-                        for (_, (bm, bi)) in &bs {
-                            if count[&(*bm, *bi)] > 1 && seen.insert((*bm, *bi)) {
-                                let bpath = format!("crate::{}::{}", prog.mods[*bm].path_str(), prog.mods[*bm].items[*bi].name());
+                        for (_, bpath) in &bs {
+                            if count[bpath] > 1 && seen.insert(bpath.clone()) {
                                 d.value_test(
                                     &file,
                                     "asref_absent",
-                                    format!("{} as {} (occurs {} times)", td.name, bpath, count[&(*bm, *bi)]),
+                                    format!("{} as {} (occurs {} times)", td.name, bpath, count[bpath]),
                                     vec![format!("crate::rt::value(test, \"asref_absent\", \"impl\", {{ use crate::rt::NoImpl; <crate::rt::Probe<{}, {bpath}>>::IMPL }} as i128);", td.name)],
                                     vec![("impl".into(), 0)],
                                 );
